@@ -27,6 +27,12 @@ PROTO_FAMILY = {
 }
 
 
+# (retries | - = no timeout settings, extra settings) applied to the first valid exchange of every game through `dispatch`:
+# E<host name hex>:<protocol version>:<players>:<rules>:<check app id>, `-` = field absent
+DISPATCH_SETTINGS = [("0", "E-:-:-:-:-"), ("2", "-"), ("1", "E-:-:s:e:F"), ("-", "E6d632e782e79:47:e:s:T"), ("3", "E-:-1:t:-:-"),
+                     ("0", "E676d:-:-:t:F")]
+
+
 def run(rep, tier, seed, replay=None):
     if replay is not None:
         vlib.correspond(rep, replay, oracle=netprops.crash_oracle, trivial=netprops.trivial, tag="c14")
@@ -73,13 +79,23 @@ def run(rep, tier, seed, replay=None):
                     p = f"{gid}p game-protocol {d['port'] if port == '-' else port} {d['engine']} {d['gather']} 0 {script_opts}"
                     grp = {"id": d["id"], "generic": g, "protocol": p, "module": None, "what": what}
                     cases += [g, p]
+                    # the same exchange through the dispatch model (Proto/Dispatch.lean): generic path and module path
+                    cases.append(f"{gid}dg dispatch {d['id']} {port} - - {script_opts}")
                     if m is not None:
                         grp["module"] = f"{gid}m game-module {m['id']} {port} {script_opts}"
-                        # battalion1944's module applies rule overrides the generic path does not have (known finding):
-                        # its module line is run on the implementation only
+                        # battalion1944's module applies rule overrides the generic path does not have (known finding): its
+                        # game-module line is run on the implementation only; its dispatch-module line goes through the model of the
+                        # module with the overrides (Proto/Battalion.lean, Module.battalion1944)
                         if d["id"] != "battalion1944":
                             cases.append(grp["module"])
+                        cases.append(f"{gid}dm dispatch-module {m['id']} {port} {script_opts}")
                     groups.append(grp)
+            # the settings rules of the Valve arm (extra settings replace the definition's; timeout settings give the retry count)
+            if raw is lines[0]:
+                for j, (r, extra) in enumerate(DISPATCH_SETTINGS):
+                    k += 1
+                    cases.append(f"{d['id']}_{k}dx dispatch {d['id']} {'-' if j % 2 else d['port'] + j} {r} {extra} "
+                                 + " ".join([base.fmt_script()] + base.opts))
         rep.count("game:" + ("with-module" if m else "definition-only"))
     # ---- every other protocol of the table: the same three paths on the real code, compared through the sorted JSON of
     # as_original() (the paths themselves are glue: games/query.rs, the game_query_mod! modules, the protocol entry points)
@@ -122,6 +138,15 @@ def run(rep, tier, seed, replay=None):
                            "module": f"{gid}m any-module {(m or d)['id']} {port} {script_opts}" if has_module else None}
                     any_groups.append(grp)
                     any_lines += [x for x in (grp["generic"], grp["protocol"], grp["module"]) if x]
+                    # the same exchange through the dispatch model: generic path and module path, model against code
+                    grp["dgeneric"] = f"{gid}dg dispatch {d['id']} {port} - - {script_opts}"
+                    grp["dmodule"] = f"{gid}dm dispatch-module {(m or d)['id']} {port} {script_opts}" if has_module else None
+                    cases += [x for x in (grp["dgeneric"], grp["dmodule"]) if x]
+            if v is valid[0]:
+                for j, (r, extra) in enumerate(DISPATCH_SETTINGS):
+                    k += 1
+                    cases.append(f"{d['id']}_{k}dx dispatch {d['id']} {'-' if j % 2 else d['port'] + j} {r} {extra} "
+                                 + " ".join([base.fmt_script()] + base.opts))
         rep.count("game:" + ("with-module" if has_module else "definition-only"))
     model, impl, panics = vlib.correspond(rep, netprops.corpus("C14") + cases, oracle=netprops.crash_oracle, trivial=netprops.trivial, tag="c14")
     # battalion module lines: implementation only
@@ -158,6 +183,11 @@ def run(rep, tier, seed, replay=None):
             mo = obs(g["module"])
             if mo != go:
                 rep.oracle_failures.append((f"paths-differ:generic-vs-module:{g['id']}:{differ(go, mo)}", f"{g['what']}: generic {str(go)[:200]} module {str(mo)[:200]}", g["module"], str(mo)[:300]))
+    for g in any_groups:
+        if g.get("dmodule"):
+            go, mo = obs(g["dgeneric"]), obs(g["dmodule"])
+            if go != mo:
+                rep.oracle_failures.append((f"paths-differ:generic-vs-module:{g['id']}:{differ(go, mo)}", f"{g['what']}: dispatch {str(go)[:200]} dispatch-module {str(mo)[:200]}", g["dmodule"], str(mo)[:300]))
     rep.extra_cov["games_compared"] = len({g["id"] for g in groups + any_groups})
     rep.extra_cov["programs"] = len({g["id"] for g in groups + any_groups})
     rep.extra_cov["disagreements_checked"] = len(groups) + len(any_groups)
